@@ -266,7 +266,7 @@ def vc_call_binary(H):
             ctx.oblige('C02/C16: values are passed as (mv1.values(), mv2.values()); result pairs keys_out with the '
                        'returned values' + (' (via numspace[func.__name__] when a wrapper is set)' if wrapper_case == 'set' else ''),
                        same(r, exp), meta={'got': repr(r), 'expected': repr(exp)})
-            ctx.oblige('C09 frame: no attribute or item of an operand is written',
+            ctx.oblige('only(C09): frame: no attribute or item of an operand is written',
                        not _events(ctx, 'setattr') and not _events(ctx, 'setitem'))
             return r
         H.run_paths(fuc, f'mv,mv,wrapper={wrapper_case}', body)
@@ -311,7 +311,7 @@ def vc_call_binary(H):
             look = _events(ctx, 'lookup')
             k = lambda m: Rec('call', Rec('attr', m, 'keys'), (), {})
             exp = (k(inner), k(mv)) if side == 1 else (k(mv), k(inner))
-            ctx.oblige(f'C16: a (nested) zero-argument callable as operand {side} is replaced by its value, side kept',
+            ctx.oblige(f'only(C16): a (nested) zero-argument callable as operand {side} is replaced by its value, side kept',
                        len(look) == 1 and same(look[0][1], exp))
             return r
         H.run_paths(fuc, f'callable-on-side-{side}', body)
@@ -331,7 +331,7 @@ def vc_call_binary(H):
                 r = H.closure(interp, fuc, env)(W['me'], *args)
                 cb = Rec('attr', W['me'], '_call_binary')
                 exp = cont(Rec('call', cb, ((e, mv) if side == 1 else (mv, e)), {}) for e in elems)
-                ctx.oblige(f'C16: {cont.__name__} as operand {side} yields the {cont.__name__} of results, '
+                ctx.oblige(f'only(C16): {cont.__name__} as operand {side} yields the {cont.__name__} of results, '
                            f'element order and operand side kept', same(r, exp) and type(r) is cont,
                            meta={'got': repr(r), 'expected': repr(exp)})
                 return r
@@ -351,7 +351,7 @@ def vc_call_binary(H):
             raised = None
         except AlgebraError as e:
             r, raised = None, e
-        ctx.oblige('C14: operands whose algebras differ (not identical, not ==) raise AlgebraError before any lookup',
+        ctx.oblige('only(C14): operands whose algebras differ (not identical, not ==) raise AlgebraError before any lookup',
                    z3.Implies(z3.Not(eq.t), z3.BoolVal(raised is not None and not _events(ctx, 'lookup'))))
         ctx.oblige('C14: equal algebras are accepted', z3.Implies(eq.t, z3.BoolVal(raised is None)))
         if raised:
@@ -404,7 +404,7 @@ def vc_unary_call(H):
                 exp = Rec('call', Rec('attr', env['MultiVector'], 'fromkeysvalues'), (W['alg'],), {'keys': ko, 'values': vals})
             ctx.oblige('post: result pairs keys_out with func(mv.values())', same(r, exp),
                        meta={'got': repr(r), 'expected': repr(exp)})
-            ctx.oblige('C09 frame: the operand is not written', not _events(ctx, 'setattr') and not _events(ctx, 'setitem'))
+            ctx.oblige('only(C09): frame: the operand is not written', not _events(ctx, 'setattr') and not _events(ctx, 'setitem'))
             return r
         H.run_paths(fuc, f'wrapper={wrapper_case}', body)
 
@@ -475,7 +475,7 @@ def vc_registry_call(H):
             exp = Rec('call', Rec('attr', env['MultiVector'], 'fromkeysvalues'), (W['alg'],), {'keys': ko, 'values': vals})
             ctx.oblige('C11: result pairs keys_out with func(*values) (by name from numspace when a wrapper is set)',
                        same(r, exp), meta={'got': repr(r), 'expected': repr(exp)})
-            ctx.oblige('C09 frame: operands are not written', not _events(ctx, 'setattr') and not _events(ctx, 'setitem'))
+            ctx.oblige('only(C09): frame: operands are not written', not _events(ctx, 'setattr') and not _events(ctx, 'setitem'))
             return r
         H.run_paths(fuc, f'mvs,wrapper={wrapper_case}', body)
 
